@@ -152,6 +152,19 @@ class EnvelopeWorld(World):
             "indep_sample": 0.03 if tier == "quick" else 0.06,
             "werror": rng.random() < 0.2,
         }
+        if rng.random() < 0.025:
+            # a long-lived process: hundreds of calls (counters, caches filling up, the N-th call)
+            h["n_ops"] = rng.choice([260, 300, 520, 1030])
+            try:
+                import seams as _seams
+                _seams.load_library()
+                hv = gen.harvested(50, 1500, around=False)
+                if hv and rng.random() < 0.5:
+                    h["n_ops"] = rng.choice(hv) + rng.choice([5, 20])
+            except Exception:  # noqa: BLE001
+                pass
+            h["fault_rate"] = rng.choice(["none", "low"])
+            h["long_lived"] = True
         if tier == "thorough" and rng.random() < 0.25:
             # deeper bounds in the thorough tier: longer histories, more signers
             h["n_ops"] = rng.randint(45, 140)
@@ -232,6 +245,9 @@ class EnvelopeWorld(World):
 
     def _resolve_under(self, u):
         kind = u[0]
+        if kind == "seedhex":
+            # the hex text of a signer's *private* seed used as a name in the signature map (a mix-up of the two 64-digit strings)
+            return self.keys.seeds[u[1]].hex() if u[1] < len(self.keys) and self.keys.seeds[u[1]] is not None else None
         if kind == "key":
             return self.keys.pub[u[1]] if u[1] < len(self.keys) else None
         if kind == "spell":
@@ -321,7 +337,11 @@ class EnvelopeWorld(World):
         signed_before = refcanon(E["signed"])
         if impl == "lib-raw":
             # a caller that builds the key object on the fly (PrivateKey.from_hex per signature) and drops it afterwards
-            pk = self.lib.common.PrivateKey.from_bytes(self.keys.seeds[i]) if op.get("fresh") else self.keys.priv[i]
+            if op.get("fresh") and self.keys.seeds[i] is not None:
+                pk = (self.lib.common.PrivateKey.from_hex(self.keys.seeds[i].hex()) if op.get("fresh") == "hex" else
+                      self.lib.common.PrivateKey.from_bytes(self.keys.seeds[i]))
+            else:
+                pk = self.keys.priv[i]
             o = self.calls.raw("sign_signable", E, pk)
             del pk
             if not o.ok:
@@ -580,6 +600,10 @@ class EnvelopeWorld(World):
             pub = self.lib.common.PublicKey.from_hex(self.keys.pub[j])
         except (TypeError, ValueError):
             return self.run.ev("noop")
+        if op.get("data") == "bytearray" and isinstance(ent.get("other_headers"), str):
+            # the OpenPGP primitive with a mutable buffer as data: whatever it answers, the caller's buffer is the caller's (C12, argument snapshot)
+            self.calls.call("verify_gpg_signature", dict(ent), self.keys.pub[j], data)
+            return
         o = self.calls.call("verify_signature", sig, pub, data)
         valid = isinstance(data, bytes) and (self.keys.pub[j], __import__("hashlib").sha256(data).hexdigest(), sig) in self.ledger.raw
         self.run.probe("vs_valid" if valid else "vs_invalid")
@@ -591,6 +615,50 @@ class EnvelopeWorld(World):
                              "verify_signature %s although the signature is %s" % ("returned" if o.ok else "raised " + o.cls, "valid" if valid else "invalid"),
                              "raw-primitive-wrong:" + ("accept" if o.ok else o.cls))
 
+    def op_cross_mode(self, op):
+        """The same envelope judged in one signature mode and then - with its entries re-dressed - in the other: an OpenPGP entry
+        reduced to its bare signature value is not a raw signature, a raw entry given headers is not an OpenPGP signature, and a raw
+        signature over payload||headers||trailer is not an OpenPGP signature over payload.  What an earlier call (in the other mode,
+        or of the single-signature primitive) has seen must not make the later one count them."""
+        e = op["env"]
+        if e >= len(self.envs):
+            return self.run.ev("noop")
+        E = self.envs[e]
+        auth = [k for k in self.keys.pub]
+        gpg = self.env_gpg[e]
+        k0 = len(counted_keys(self.ledger, E["signed"], E["signatures"], auth, gpg))
+        o = self.calls.call("verify_signable", E, auth, max(1, k0), gpg=gpg)
+        self._judge(E, auth, max(1, k0), gpg, o, ctx="cross-mode-first")
+        if self.run.stop:
+            return
+        E2 = {"signatures": {}, "signed": E["signed"]}
+        for k, ent in E["signatures"].items():
+            if not isinstance(ent, dict) or not isinstance(ent.get("signature"), str):
+                continue
+            if gpg:
+                E2["signatures"][k] = {"signature": ent["signature"]}
+            else:
+                E2["signatures"][k] = {"other_headers": op.get("hdr", "04001608"), "signature": ent["signature"]}
+        if op.get("prim_key") is not None and op["prim_key"] < len(self.keys) and self.keys.priv[op["prim_key"]] is not None:
+            # the key holder really signs, in raw mode, the bytes an OpenPGP verifier would hash; the primitive sees that signature first
+            i = op["prim_key"]
+            hdr = bytes.fromhex(op.get("hdr", "04001608"))
+            B = refcanon(E["signed"]) + hdr + b"\x04\xff" + len(hdr).to_bytes(4, "big")
+            sig = self.keys.priv[i].sign(B).hex()
+            self.ledger.record_raw(self.keys.pub[i], __import__("hashlib").sha256(B).hexdigest(), sig)
+            try:
+                pubobj = self.lib.common.PublicKey.from_hex(self.keys.pub[i])
+                self.calls.raw("verify_signature", sig, pubobj, B)
+            except (TypeError, ValueError):
+                pass
+            E2 = {"signatures": {self.keys.pub[i]: {"other_headers": hdr.hex(), "signature": sig}}, "signed": E["signed"]}
+            gpg = False          # judged in OpenPGP mode below
+        self.run.fault("entries_redressed_for_other_mode")
+        g2 = not gpg
+        k2 = len(counted_keys(self.ledger, E2["signed"], E2["signatures"], auth, g2))
+        o2 = self.calls.call("verify_signable", E2, auth, max(1, k2), gpg=g2)
+        self._judge(E2, auth, max(1, k2), g2, o2, ctx="cross-mode-second")
+
     def _twin_of(self, payload, kind):
         """A different JSON value that collides with `payload` under a weak summary (length + CRC-32 of the canonical
         bytes, or Python ==).  None if this payload has no such twin."""
@@ -599,6 +667,32 @@ class EnvelopeWorld(World):
         if kind == "pyeq":
             t = twins.python_eq_twin(payload)
             return None if t is None or refcanon(t[0]) == refcanon(payload) else t[0]
+        if kind == "nfc":
+            # one member name respelled in the other Unicode normalisation form (canonically equivalent, a different JSON string)
+            import unicodedata
+
+            def walk(v):
+                if isinstance(v, dict):
+                    for k in list(v):
+                        for form in ("NFD", "NFC"):
+                            k2 = unicodedata.normalize(form, k)
+                            if k2 != k and k2 not in v:
+                                return {(k2 if kk == k else kk): vv for kk, vv in v.items()}
+                    for k in v:
+                        t = walk(v[k])
+                        if t is not None:
+                            return {kk: (t if kk == k else vv) for kk, vv in v.items()}
+                elif isinstance(v, list):
+                    for i, x in enumerate(v):
+                        t = walk(x)
+                        if t is not None:
+                            return v[:i] + [t] + v[i + 1:]
+                return None
+            try:
+                t = walk(payload)
+            except (TypeError, ValueError):
+                t = None
+            return None if t is None or refcanon(t) == refcanon(payload) else t
         data = refcanon(payload)
         # longest run of characters that stay inside a JSON string when their low bits flip
         best, cur = (0, 0), None
@@ -797,8 +891,13 @@ class EnvelopeWorld(World):
                 op["subclass"] = rng.choice(["ordered", "default", "sub", "alternate"])
             if rng.random() < 0.12:
                 op["shared"] = True
+            if isinstance(pl, dict) and rng.random() < 0.15:
+                pl[rng.choice(["caf\u00e9", "\u00c5ngstr\u00f6m", "na\u00efve-\u1e9b\u0323", "e\u0301t\u00e9"])] = rng.choice([1, "x", [], {"caf\u00e9": 2}])
             if isinstance(pl, dict) and rng.random() < 0.02:
                 op["pad"] = rng.choice([70000, 70000, 150000, 400000])
+                hv = [c for c in gen.harvested(2000, 3 << 20, around=False)]
+                if hv and rng.random() < 0.6:
+                    op["pad"] = int(rng.choice(hv) * rng.choice([1.1, 1.5, 2.2]))
             return op
         e = rng.randrange(len(self.envs))
         E = self.envs[e]
@@ -815,7 +914,7 @@ class EnvelopeWorld(World):
         if r < 0.34:
             i = rng.randrange(nk)
             impl = rng.choice(IMPLS_PGP if gpg else IMPLS_RAW)
-            op = {"op": "sign", "env": e, "key": i, "impl": impl, "dt": dt, "fresh": rng.random() < 0.5}
+            op = {"op": "sign", "env": e, "key": i, "impl": impl, "dt": dt, "fresh": rng.choice([False, True, "hex"])}
             if impl in ("simgpg", "indep-pgp") and rng.random() < 0.5:
                 op["hdr"] = _gen_headers(rng)
                 if rng.random() < 0.4:
@@ -831,8 +930,11 @@ class EnvelopeWorld(World):
             return {"op": "probe", "env": e, "auth": self._gen_auth(rng, E, wellformed=True), "gpg": gpg, "dt": dt}
         if r < 0.74 and not gpg:
             return {"op": "resign", "env": e, "key": rng.randrange(nk), "dt": dt}
-        if r < 0.76 and not gpg:
+        if r < 0.76 and (not gpg or rng.random() < 0.3):
             op = {"op": "vs", "env": e, "key": rng.randrange(nk), "dt": dt}
+            if gpg:
+                op["data"] = "bytearray"
+                return op
             k = rng.random()
             if k < 0.3:
                 op["flip"] = rng.randrange(128)
@@ -853,7 +955,12 @@ class EnvelopeWorld(World):
         if r < 0.895 and rate > 0:
             auth = self._gen_auth(rng, E, wellformed=True)
             kk = len(counted_keys(self.ledger, E["signed"], E["signatures"], auth, gpg))
-            return {"op": "twin", "env": e, "kind": rng.choice(["crc", "crc", "pyeq"]), "auth": auth, "t": max(1, kk), "gpg": gpg, "dt": dt}
+            return {"op": "twin", "env": e, "kind": rng.choice(["crc", "crc", "pyeq", "nfc"]), "auth": auth, "t": max(1, kk), "gpg": gpg, "dt": dt}
+        if r < 0.9 and rate > 0:
+            op = {"op": "cross_mode", "env": e, "dt": dt, "hdr": rng.choice(["04001608", "0400160800000000", "04011608000605020a0b0c0d"])}
+            if rng.random() < 0.4:
+                op["prim_key"] = rng.randrange(nk)
+            return op
         if r < 0.905 and rate > 0:
             auth = self._gen_auth(rng, E, wellformed=True)
             kk = len(counted_keys(self.ledger, E["signed"], E["signatures"], auth, gpg))
@@ -869,7 +976,11 @@ class EnvelopeWorld(World):
             return {"op": "verify_shape", "env": e, "auth": auth, "t": rng.randint(1, 2), "gpg": gpg, "dt": dt,
                     "shape": rng.choice(["extra_member", "no_signed", "no_signatures", "sigs_list", "sigs_none", "as_list", "renamed", "nested"])}
         if r < 0.935 and rate > 0:
-            return {"op": "bulk_junk", "env": e, "n": rng.choice([10, 50, 120, 300, 300, 1100, 5000]), "seed": rng.getrandbits(30), "dt": dt, "front": rng.random() < 0.5}
+            ns = [10, 50, 120, 300, 300, 1100, 5000]
+            hv = gen.harvested(6, 9000)
+            if hv and rng.random() < 0.5:
+                ns = hv                 # counts the code under test itself names (caps, cache sizes), and their neighbours
+            return {"op": "bulk_junk", "env": e, "n": rng.choice(ns), "seed": rng.getrandbits(30), "dt": dt, "front": rng.random() < 0.5}
         if r < 0.96 and rate > 0:
             ps = gen.paths(E["signed"])
             p = list(rng.choice(ps))
@@ -884,6 +995,9 @@ class EnvelopeWorld(World):
         idx = [i for i in range(nk) if rng.random() < 0.7] or [rng.randrange(nk)]
         rng.shuffle(idx)
         auth = [self.keys.pub[i] for i in idx]
+        odd64 = [k for k in E["signatures"] if isinstance(k, str) and len(k) == 64 and k not in self.keys.pub and all(c in "0123456789abcdef" for c in k)]
+        if odd64 and rng.random() < 0.5:
+            auth.append(rng.choice(odd64))           # a well-formed name present in the map that is nobody's public key (e.g. a seed's hex text)
         if r < 0.1:
             auth.append(auth[0])                     # duplicate in the authorised list
         if r < 0.2:
@@ -960,6 +1074,9 @@ class EnvelopeWorld(World):
                     "under": ["lit", gen.junk_key(rng, self.keys.pub)]}
         if kind == "junk_value":
             a = rng.randrange(nk)
+            if rng.random() < 0.2:
+                ent = {"signature": hx(128)} if not gpg else {"other_headers": hx(12), "signature": hx(128)}
+                return {"op": "file", "kind": "seed_as_key", "env": e, "src": ["lit", ent], "under": ["seedhex", a]}
             return {"op": "file", "kind": kind, "env": e, "src": ["lit", gen.junk_entry(rng)], "under": ["key", a]}
         if kind == "bitflip" and signed_keys:
             a = rng.choice(signed_keys)
